@@ -17,6 +17,7 @@ import (
 type CorpusFile struct {
 	Path        string // relative to repo
 	Name        string
+	Aliases     []string // other paths with identical content
 	Data        []byte
 	Top         []*ref.Box
 	HasMoov     bool
@@ -59,19 +60,20 @@ func LoadCorpus() ([]*CorpusFile, error) {
 		return nil, err
 	}
 	sort.Strings(paths)
-	seen := map[string]bool{}
+	seen := map[string]*CorpusFile{}
 	for _, p := range paths {
 		data, err := os.ReadFile(p)
 		if err != nil {
 			return nil, err
 		}
 		key := string(data)
-		if seen[key] { // identical copies in several testdata dirs
+		rel, _ := filepath.Rel(root, p)
+		if prev := seen[key]; prev != nil { // identical copies in several testdata dirs
+			prev.Aliases = append(prev.Aliases, rel)
 			continue
 		}
-		seen[key] = true
-		rel, _ := filepath.Rel(root, p)
 		cf := &CorpusFile{Path: rel, Name: filepath.Base(p), Data: data}
+		seen[key] = cf
 		top, err := ref.Walk(data, 0, int64(len(data)), true)
 		if err != nil {
 			continue // not a well-formed box sequence: not corpus material
@@ -105,11 +107,16 @@ func Select(pred func(*CorpusFile) bool) []*CorpusFile {
 	return out
 }
 
-// ByName finds a corpus file by base name.
+// ByName finds a corpus file by base name or path suffix (aliases included).
 func ByName(name string) *CorpusFile {
 	for _, c := range corpus {
-		if c.Name == name {
+		if c.Name == name || strings.HasSuffix(c.Path, "/"+name) {
 			return c
+		}
+		for _, a := range c.Aliases {
+			if strings.HasSuffix(a, "/"+name) {
+				return c
+			}
 		}
 	}
 	return nil
